@@ -423,7 +423,12 @@ def _get_comp_cls_media(comp_cls: Type["Component"]) -> Any:
             continue
 
         # Prepare base classes
-        media_input = getattr(curr_cls, "Media", None)
+        # NOTE: Only the `Media` class defined on THIS class counts. With `getattr()`, a class without
+        #       its own `Media` would pick up the `Media` of the nearest parent - including its `extend` -
+        #       and e.g. `class Child(Parent1, Parent2)` would lose the files of `Parent2` if
+        #       `Parent1.Media.extend` is `False` or a list. A class without own `Media` inherits
+        #       from all its bases (`extend=True`).
+        media_input = curr_cls.__dict__.get("Media", None)
         media_extend = getattr(media_input, "extend", True)
 
         # This ensures the same behavior as Django's Media class, where:
